@@ -4,7 +4,7 @@
 //!   p_c05 run      stdin: one history per line, same integer encoding as coq/seqreg/Run.v:
 //!                      <case-id> npre (sig kind tag)*npre item*
 //!                    kind 0 SIG_DFL, 1 SIG_IGN, 2 user handler (plain), 3 user handler (SA_SIGINFO),
-//!                    4 / 5 = 2 / 3 installed with SA_RESETHAND|SA_NODEFER and SIGWINCH in the mask
+//!                    4 / 5 = 2 / 3 installed with SA_RESETHAND|SA_NODEFER|SA_ONSTACK and SIGWINCH in the mask
 //!                    item: 1 sig tag register | 2 sig tag register_sigaction | 3 sig id unregister
 //!                          4 sig unregister_signal | 5 sig raise | 6 sig report disposition
 //!                  stdout: first the `libaddr` line, then per history:  H <case-id> <ints>  with per item
@@ -120,7 +120,7 @@ fn run_history(ints: &[i64]) -> String {
             }
             if kind >= 4 {
                 // a previous handler that asked for an unusual environment
-                act.sa_flags |= libc::SA_RESETHAND | libc::SA_NODEFER;
+                act.sa_flags |= libc::SA_RESETHAND | libc::SA_NODEFER | libc::SA_ONSTACK;
                 libc::sigaddset(&mut act.sa_mask, libc::SIGWINCH);
             }
             libc::sigaction(sig, &act, std::ptr::null_mut());
